@@ -426,10 +426,12 @@ class Gen:
             elif c < 0.40 and ints:
                 ref = ["this", r.choice(ints)]
                 d = r.random()
+                # (sometimes a power of two of the field: the constant is the LEFT operand of the shift)
+                ref2 = ref if r.random() < 0.8 else ["bin", "<<", 1, ["bin", "&", ref, 3]]
                 if d < 0.3:
-                    ms.append([name, ["Bytes", ref]])
+                    ms.append([name, ["Bytes", ref2]])
                 elif d < 0.5:
-                    ms.append([name, ["Array", ref, self.nonzero(depth - 1)]])
+                    ms.append([name, ["Array", ref2, self.nonzero(depth - 1)]])
                 elif d < 0.62:
                     ms.append([name, ["PaddedString", ref, "ascii"]])
                 elif d < 0.72:
